@@ -25,8 +25,16 @@ Oracle (independent of the model) on the real outputs:
              is not merged into `onto` (both skip settings);
   ids      = new ids pairwise distinct, different from every old id;
   persist  = unmarshal(marshal(info, plan)) == (info, plan);
-  todo     = rebase_todo lists exactly the entries whose new id is absent.
-Input families: random DAGs (two-lines / bushy / mixed) and a chain-heavy family
+  todo     = rebase_todo lists exactly the entries whose new id is absent;
+  transpose= the plan rewrites exactly the descendants of the renamed revisions;
+             no rewritten revision keeps as a parent an OLD revision that is itself
+             replaced (renamed / rewritten) unless its replacement is a parent too,
+             and positionally the new parents are the old ones with every replaced
+             one substituted (claimed when no replacement revision lies inside the
+             rewritten region).
+Input families: triangle graphs for the transpose plan (D = merge(P, X), X a
+descendant of P directly or through a chain, P renamed or rewritten, one or two
+stacked triangles, a tail on top), and for the simple plan: random DAGs (two-lines / bushy / mixed) and a chain-heavy family
 (short upstream line, long local line with merges of upstream, of earlier local
 revisions and of ghosts, planned from its tip onto the upstream tip) so that
 plans of 6+ entries are common (~15 %); `branch:*` counters (a re-computation
@@ -59,6 +67,8 @@ Improvement round (audit): also
       entry, incl. the "new id" of a ghost)                                      -> oracle (closure; passed the old `p not in g` test)
   M14 with an explicit start every merge is skipped (skip_full_merged=True)      -> oracle (range domain; no oracle before)
   M11 re-run                                                                     -> oracle (domain)
+Seeded change C51b (transpose: `c in processed` instead of `c in replace_map`: a merge reached a second time through
+its second rewritten parent restarts from the original parents)                  -> oracle (transpose: old replaced parent kept)
 """
 import itertools
 
@@ -67,7 +77,7 @@ from vlib import env
 THEOREMS = [
     "anc_spec", "plan_domain", "plan_domain_todo", "plan_parents_closed", "plan_new_ids", "plan_ids_distinct",
     "plan_range_domain", "plan_range_closed", "plan_skip_exact", "plan_skip_fixed", "marshal_roundtrip",
-    "todo_is_unrewritten", "transpose_excludes_renames_partial",
+    "todo_is_unrewritten", "transpose_excludes_renames_partial", "transpose_no_stale_parent", "transpose_triangle_witness",
 ]
 RULE = ("case = (graph with ghosts, stop, onto, start, skip) / (plan text) / (ancestry, renames); "
         "non-trivial = plan has >= 2 entries or an error branch is taken; text cases: >= 1 entry or rejected")
@@ -183,7 +193,7 @@ def gen_graph(rng, n, nghost):
                     ps.append(p)
             if i > 1 and not ps and rng.random() < 0.8:
                 ps = [rng.choice(cands)]
-        ps = [kid(p) for p in ps]
+        ps = [kid(p) for p in dict.fromkeys(ps)]          # (a revision never lists a parent twice)
         if ghosts and rng.random() < 0.12:
             gh = rng.choice(ghosts)
             if rng.random() < 0.25:
@@ -565,21 +575,50 @@ def state_cases(ctx, k):
 
 
 # ---------------------------------------------------------------- transpose
-def transpose_cases(ctx, b, g, ghosts, n):
+def triangle_graph(rng):
+    """D = merge(P, X) with X a descendant of P (directly, or through a chain: long triangle), P renamed itself (triangle)
+    or rewritten because one of its ancestors is renamed (deep triangle); optionally more revisions on top of D and a second,
+    nested triangle -> (graph, tips, revision to rename, n)"""
+    g = {NULL: ()}
+    pre = rng.randint(1, 3)                      # chain 1..pre, P = pre
+    for i in range(1, pre + 1):
+        g[kid(i)] = (kid(i - 1),) if i > 1 else (NULL,)
+    nxt = pre + 1
+    P = kid(pre)
+    top = P
+    for _ in range(rng.randint(1, 2)):           # one or two stacked triangles
+        chain = rng.randint(1, 3)
+        x = top
+        for _ in range(chain):
+            g[kid(nxt)] = (x,)
+            x = kid(nxt)
+            nxt += 1
+        g[kid(nxt)] = (top, x) if rng.random() < 0.7 else (x, top)      # the no-ff merge
+        top = kid(nxt)
+        nxt += 1
+    for _ in range(rng.randint(0, 2)):
+        g[kid(nxt)] = (top,)
+        top = kid(nxt)
+        nxt += 1
+    rename = kid(rng.randint(1, pre))            # P itself or one of its ancestors
+    return g, [top], rename, nxt - 1
+
+
+def transpose_cases(ctx, b, g, ghosts, n, triangle=None):
     from vcsgraph.graph import DictParentsProvider, Graph
     from breezy.plugins.rewrite import rebase
     rng = ctx.rng
     graph = Graph(DictParentsProvider(g))
     nodes = [kid(i) for i in range(1, n + 1)]
-    tips = rng.sample(nodes, min(len(nodes), rng.randint(1, 2)))
+    tips = triangle[0] if triangle else rng.sample(nodes, min(len(nodes), rng.randint(1, 2)))
     ancestry = [(k, ps) for k, ps in graph.iter_ancestry(tips)]
     in_anc = [k for k, ps in ancestry if ps is not None and k != NULL]
     if not in_anc:
         return
     renames = {}
-    for r in rng.sample(in_anc, min(len(in_anc), rng.randint(1, 2))):
+    for r in ([triangle[1]] if triangle else rng.sample(in_anc, min(len(in_anc), rng.randint(1, 2)))):
         r2 = rng.random()
-        if r2 < 0.7:
+        if r2 < 0.7 or triangle:
             v = kid(kn(r) + 500)          # a fresh copy with other parents
             cands = [k for k in nodes if kn(k) < kn(r)]
             g[v] = tuple(rng.sample(cands, min(len(cands), rng.randint(1, 2)))) or (NULL,)
@@ -625,6 +664,31 @@ def transpose_cases(ctx, b, g, ghosts, n):
                 changed = True
     if set(plan) != desc:
         ctx.violation(case, "transpose plan rewrites %s, descendants of the renamed revisions are %s" % (sset(plan), sset(desc)))
+    # every new parent of a rewritten revision is a rename target, the new id of a rewritten revision, or an untouched old
+    # revision - never an old revision that is itself replaced (renamed or rewritten); and positionally the new parents
+    # are the old parents with every replaced one substituted
+    img = lambda q: renames[q] if q in renames else (plan[q][0] if q in plan else q)       # noqa
+    if any(v in renames or v in plan for v in renames.values()):
+        # a replacement revision that is itself renamed / a descendant of a renamed revision: the request is circular,
+        # nothing is claimed about it (model and code are still compared)
+        ctx.count("transpose:replacement-inside-the-rewritten-region")
+        return
+    for old, (new, parents) in plan.items():
+        ctx.count("transpose-entry:%d-parents" % min(len(parents), 3))
+        for p in parents:
+            if (p in renames or p in plan) and img(p) not in parents:
+                ctx.violation(case, "transpose entry %s -> %s keeps the OLD revision %s as a parent although that revision is "
+                                    "itself replaced by %s (plan %s)" % (slist([old]), slist([new]), slist([p]), slist([img(p)]), splan(plan)))
+            elif p in renames or p in plan:
+                ctx.count("transpose:replacement-already-a-parent")      # (`replace_map[r][0] in parents`: r is left alone)
+        want = tuple(img(q) for q in amap[old])
+        # (position by position: substituted, or left alone because its replacement is a parent already)
+        if len(parents) != len(want) or any(p != w and not (p == q and w in parents)
+                                            for p, w, q in zip(parents, want, amap[old])):
+            ctx.violation(case, "transpose entry %s -> %s has parents %s, the old parents %s with every replaced one substituted "
+                                "are %s" % (slist([old]), slist([new]), slist(parents), slist(amap[old]), slist(want)))
+    if triangle:
+        ctx.count("transpose:triangle")
 
 
 # ---------------------------------------------------------------- run
@@ -640,6 +704,9 @@ def run(ctx, scale=1):
         simple_cases(ctx, b, g, ghosts, n, hint)
         if gi % 2 == 0:
             transpose_cases(ctx, b, dict(g), ghosts, n)
+        if gi % 5 == 0:
+            tg, ttips, trename, tn = triangle_graph(rng)
+            transpose_cases(ctx, b, tg, [], tn, triangle=(ttips, trename))
         if len(b.lines) > 4000:
             b.flush()
     text_cases(ctx, b, ctx.pick(1500, 15000) * scale)
